@@ -405,13 +405,63 @@ func zzC13DegList() (l []any) {
 	return l
 }
 
+// zzC13Raw is a value that conc() spells by hand in the YAML text.
+type zzC13Raw struct{ name string }
+
+// zzC13RawText maps deviation kinds to YAML spellings.
+var zzC13RawText = map[string]string{
+	"fdot":     "7.0",
+	"fexp":     "1e3",
+	"ftag":     "!!float 5",
+	"fnegzero": "-0.0",
+	"fbig":     "2000000.0",
+	"tabml":    `"\tA\nB\n"`,
+	"nlonly":   `"\n"`,
+	"nl2":      `"\n\n"`,
+	"leadnl":   `"\nx"`,
+}
+
+// zzC13ML spells the multi-line strings of Migrate.tla's MLKinds.
+var zzC13ML = map[string]string{"tabml": "\tA\nB\n", "nlonly": "\n", "nl2": "\n\n", "leadnl": "\nx"}
+
+// zzC13Unraw replaces raw values by placeholders for the encoder.
+func zzC13Unraw(v any) (u any) {
+	switch v := v.(type) {
+	case zzC13Raw:
+		return "zzraw-" + v.name + "-zz"
+	case yobj:
+		m := make(yobj, len(v))
+		for k, e := range v {
+			m[k] = zzC13Unraw(e)
+		}
+
+		return m
+	case []any:
+		l := make([]any, len(v))
+		for i := range v {
+			l[i] = zzC13Unraw(v[i])
+		}
+
+		return l
+	default:
+		return v
+	}
+}
+
 // zzC13DevValue returns the concrete value of a deviation kind.
 func zzC13DevValue(key, kind string, old any) (v any, del bool) {
 	if strings.HasPrefix(kind, "perm") || kind == "recs" {
 		return zzC13Records(key, kind), false
 	}
 
+	if _, isRaw := zzC13RawText[kind]; isRaw {
+		return zzC13Raw{name: kind}, false
+	}
+
 	switch kind {
+	case "mllist":
+		return []any{zzC13Raw{name: "tabml"}, "plain", zzC13Raw{name: "nlonly"}, zzC13Raw{name: "nl2"},
+			zzC13Raw{name: "leadnl"}}, false
 	case "absent":
 		return nil, true
 	case "null":
@@ -495,9 +545,16 @@ func zzC13Conc(v int, devs []zzC13Dev) (doc yobj, body []byte, ok bool, err erro
 		}
 	}
 
-	body, err = yaml.Marshal(doc)
+	body, err = yaml.Marshal(zzC13Unraw(doc))
 	if err != nil {
 		return nil, nil, false, err
+	}
+
+	// Values that the encoder would spell differently (floats with an
+	// integral value) or cannot spell at all (some multi-line strings) are
+	// written into the text by hand.
+	for name, text := range zzC13RawText {
+		body = bytes.ReplaceAll(body, []byte("zzraw-"+name+"-zz"), []byte(text))
 	}
 
 	// The symbolic cells are evaluated against what the code really reads.
@@ -865,8 +922,15 @@ func zzC13Eval(val string, in yobj) (v any, err error) {
 	switch tag {
 	case "any":
 		return zzC13Any{}, nil
+	case "negz":
+		return 0, nil
+	case "mllist":
+		return []any{zzC13ML["tabml"], "plain", zzC13ML["nlonly"], zzC13ML["nl2"], zzC13ML["leadnl"]}, nil
 	case "deg":
 		str, has := zzC13Deg[rest]
+		if !has {
+			str, has = zzC13ML[rest]
+		}
 		if !has {
 			return nil, fmt.Errorf("unknown degenerate string %q", val)
 		}
@@ -1078,7 +1142,7 @@ func zzC13Verify(hash, pass string) (ok bool) {
 	return ok
 }
 
-var zzC13SerialT = map[string]string{"dur": "str", "umode": "str", "strs": "list"}
+var zzC13SerialT = map[string]string{"dur": "str", "umode": "str", "strs": "list", "ifloat": "int", "bfloat": "float"}
 
 // zzC13Match checks the real document against one admissible shape; it
 // returns the first difference.
@@ -1501,7 +1565,8 @@ func TestZZVerifC13Trace(t *testing.T) {
 
 	kinds := []string{"absent", "null", "float", "str", "empty", "emptylist", "zero", "seven", "true", "false",
 		"neg", "p65535", "p65536", "huge", "estr", "v6", "hostport", "long", "badelem", "oddstrs", "dotlist",
-		"blank", "tab", "hash", "lbr", "lbrs", "lbrss", "scheme", "quicnohost", "padded"}
+		"blank", "tab", "hash", "lbr", "lbrs", "lbrss", "scheme", "quicnohost", "padded",
+		"fdot", "fexp", "ftag", "fbig"}
 	for i := 0; i < n; i++ {
 		v := rng.Intn(zzC13Last + 1)
 		doc, err := zzC13Golden(v)
